@@ -32,8 +32,16 @@ inductive PanicSite
 
 inductive Out
   | ok | rst (code : Nat) | ga (code : Nat) | close
-  | held | skip | queued | busy | nohandler | idle | gone | sfail
+  | held | skip | queued | blocked | busy | nohandler | idle | gone | sfail
   | panic (site : PanicSite)
+  deriving DecidableEq, Repr
+
+/-- a frame in a stream's write-scheduler queue (`writeSched.sq[id]`) -/
+inductive QF
+  | hdr (es : Bool)             -- response HEADERS
+  | panicRst                    -- handlerPanicRST
+  | winupd                      -- stream-level WINDOW_UPDATE queued by the serve loop (padding refund)
+  | data (len : Nat) (es : Bool)  -- response DATA (costs send window)
   deriving DecidableEq, Repr
 
 structure SS where
@@ -45,6 +53,7 @@ structure SS where
   handler : HState := .none
   fly : Fly := .none
   flow : Int := 0               -- st.flow.n (send window)
+  q : List QF := []             -- frames queued for the stream in the write scheduler
   deriving DecidableEq, Repr
 
 def SS.live (s : SS) : Bool := s.phase == .opn || s.phase == .hcr
@@ -52,16 +61,17 @@ def SS.live (s : SS) : Bool := s.phase == .opn || s.phase == .hcr
 inductive SEv
   | hnew (es ok over : Bool) (decl : Option Nat) (iws : Int)   -- HEADERS creating the stream
   | hagain (es pseudo : Bool)                     -- HEADERS on a stream of the map (trailers)
-  | data (n : Nat) (es : Bool)
+  | data (n : Nat) (es : Bool) (pad : Nat)         -- pad > 0: PADDED flag, pad = bytes refunded at once
   | rstc                                          -- RST_STREAM from the client
-  | fin | pan                                     -- the handler returns / panics: its frame reaches startFrameWrite
-  | finQueued                                     -- the same while a GOAWAY with an error code has stopped the scheduler
+  | handlerFrames (fs : List QF)                  -- the handler ends: its last frame(s) are handed to writeFrame (queued)
+  | start (f : QF)                                -- startFrameWrite for a frame taken from this stream's queue
   | winUpd (inc : Nat)                            -- WINDOW_UPDATE with a non-zero increment
   | badWinUpd                                     -- WINDOW_UPDATE with increment 0 (stream error from the framer)
   | wrote                                         -- wroteFrame for this stream's frame in flight
   deriving Repr
 
-def closeReset (s : SS) : SS := { s with phase := .closedReset }
+/-- closeStream after a reset: state closed, `forgetStream` drops the queued frames -/
+def closeReset (s : SS) : SS := { s with phase := .closedReset, q := [] }
 
 def wrap32 (x : Int) : Int := (x + 2147483648) % 4294967296 - 2147483648
 
@@ -94,35 +104,30 @@ def sstep (s : SS) : SEv → SS × Out
       else if pseudo then (closeReset s, .rst 1)
       else if !s.hasBody then (s, .panic .nilBody)
       else ({ s with phase := .hcr }, .ok)
-  | .data n es =>
+  | .data n es pad =>
     if !(s.live && s.phase == .opn && !s.trailer) then
       ((if s.live then closeReset s else s), .rst 5)
     else if !s.hasBody then (s, .panic .noBody)
     else if overDeclared s n then (closeReset s, .rst 1)
     else
-      let s := { s with got := s.got + n }
+      -- padding is refunded at once: sendWindowUpdate(st, pad) hands a stream-level WINDOW_UPDATE to writeFrame
+      let s := { s with got := s.got + n, q := if pad > 0 then s.q ++ [QF.winupd] else s.q }
       if es then ({ s with phase := .hcr }, .ok) else (s, .ok)
   | .rstc => if s.live then (closeReset s, .ok) else (s, .ok)
-  | .fin =>
+  | .handlerFrames fs =>
     if s.handler != .running then (s, .nohandler)
-    else
-      let s := { s with handler := .finished }
-      match s.phase with
-      | .closedReset => (s, .skip)
-      | .closedDone => (s, .panic .writeClosed)
-      | .idle => (s, .panic .writeClosed)
-      | _ => ({ s with fly := .endFrame }, .held)
-  | .pan =>
-    if s.handler != .running then (s, .nohandler)
-    else
-      let s := { s with handler := .finished }
-      match s.phase with
-      | .closedReset => (s, .skip)
-      | .closedDone => (s, .panic .writeClosed)
-      | .idle => (s, .panic .writeClosed)
-      | _ => ({ s with fly := .panicFrame }, .held)
-  | .finQueued =>
-    if s.handler != .running then (s, .nohandler) else ({ s with handler := .finished }, .queued)
+    else ({ s with handler := .finished, q := s.q ++ fs }, .ok)
+  | .start f =>
+    match s.phase with
+    | .closedReset => (s, .skip)                             -- "Skip this frame."
+    | .closedDone => (s, .panic .writeClosed)
+    | .idle => (s, .panic .writeClosed)
+    | _ =>
+      match f with
+      | .hdr true => ({ s with fly := .endFrame }, .held)
+      | .data _ true => ({ s with fly := .endFrame }, .held)
+      | .panicRst => ({ s with fly := .panicFrame }, .held)
+      | _ => (s, .ok)                                        -- written at once by the writer
   | .winUpd inc =>
     if !s.live then (s, .ok)
     else match flowAdd s.flow inc with
@@ -136,11 +141,11 @@ def sstep (s : SS) : SEv → SS × Out
       let s := { s with fly := .none }
       match s.phase with
       | .opn => (closeReset s, .rst 0)                       -- half-closed(local) for an instant, then RST NO_ERROR
-      | .hcr => ({ s with phase := .closedDone }, .ok)
+      | .hcr => ({ s with phase := .closedDone, q := [] }, .ok)   -- closeStream(errHandlerComplete): forgetStream
       | _ => (s, .ok)
     | .panicFrame =>
       let s := { s with fly := .none }
-      if s.live then ({ s with phase := .closedDone }, .ok)
+      if s.live then ({ s with phase := .closedDone, q := [] }, .ok)
       else (s, .panic .closeClosed)                          -- closeStream on a stream already closed
 
 /-! ### the connection -/
@@ -149,10 +154,11 @@ inductive Kind | ok | cl (n : Nat) | bad | tr
 
 inductive Ev
   | H (id : Nat) (es : Bool) (k : Kind)
-  | D (id n : Nat) (es : Bool)
+  | D (id n : Nat) (es : Bool) (pad : Nat)
   | R (id : Nat)
   | F (id : Nat)
   | P (id : Nat)
+  | B (id n : Nat)                        -- the handler writes n body bytes and returns
   | W
   | S (ack : Bool) (iws : Option Nat)     -- SETTINGS: ACK / empty / INITIAL_WINDOW_SIZE
   | G (id : Nat) (ack : Bool)             -- PING
@@ -198,7 +204,7 @@ def settingsErr (c : Conn) (framer : Bool) : Conn × Out :=
   if c.goAway.isSome then (r.1, .sfail) else r
 
 def Ev.isClient : Ev → Bool
-  | .F _ => false | .P _ => false | .W => false | .Q => false | _ => true
+  | .F _ => false | .P _ => false | .B _ _ => false | .W => false | .Q => false | _ => true
 
 def headersEv (c : Conn) (id : Nat) (es : Bool) (k : Kind) : Conn × Out :=
   if id == 0 then connErr c 1 true
@@ -232,31 +238,31 @@ def schedStopped (c : Conn) : Bool :=
   | some code => code != 0
   | none => false
 
+/-- some other stream has frames in the write scheduler (the harness then refuses a body: which of several
+    streams with DATA goes first is Go map order, property C34) -/
+def othersQueued (c : Conn) (id : Nat) : Bool :=
+  c.ids.any fun j => j != id && !(c.streams j).q.isEmpty
+
 def cstepCore (c : Conn) : Ev → Conn × Out
   | .H id es k => headersEv c id es k
   | .K id es => headersEv c id es .ok
-  | .D id n es =>
+  | .D id n es pad =>
     if id == 0 then connErr c 1 true
     else if discardData c id then (c, .ok)
-    else c.upd id (sstep (c.streams id) (.data n es))
+    else c.upd id (sstep (c.streams id) (.data n es pad))
   | .R id =>
     if id == 0 then connErr c 1 true
     else if !(c.streams id).live && id > c.maxId then connErr c 1 false
     else c.upd id (sstep (c.streams id) .rstc)
   | .F id =>
     if c.held.isSome then (c, .busy)
-    else if schedStopped c then
-      c.upd id (sstep (c.streams id) .finQueued)
-    else
-      let r := c.upd id (sstep (c.streams id) .fin)
-      if r.2 == .held then ({ r.1 with held := some id }, r.2) else r
+    else c.upd id (sstep (c.streams id) (.handlerFrames [.hdr true]))
   | .P id =>
     if c.held.isSome then (c, .busy)
-    else if schedStopped c then
-      c.upd id (sstep (c.streams id) .finQueued)
-    else
-      let r := c.upd id (sstep (c.streams id) .pan)
-      if r.2 == .held then ({ r.1 with held := some id }, r.2) else r
+    else c.upd id (sstep (c.streams id) (.handlerFrames [.panicRst]))
+  | .B id n =>
+    if c.held.isSome || othersQueued c id then (c, .busy)
+    else c.upd id (sstep (c.streams id) (.handlerFrames [.hdr false, .data n true]))
   | .W =>
     match c.held with
     | none => (c, .idle)
@@ -290,10 +296,6 @@ def cstepCore (c : Conn) : Ev → Conn × Out
   | .A => (c, .ok)                                              -- a client GOAWAY is ignored
   | .Q => if c.goAway.isSome then (c, .ok) else ({ c with goAway := some 0 }, .ga 0)
 
-/-- one serve-loop iteration -/
-def cstep (c : Conn) (e : Ev) : Conn × Out :=
-  if e.isClient && c.gone then (c, .gone) else cstepCore c e
-
 def Out.terminal : Out → Bool
   | .close => true | .panic _ => true | _ => false
 
@@ -301,6 +303,81 @@ def Out.terminal : Out → Bool
     in a flow-control GOAWAY, whose partial stream updates depend on Go's map order. -/
 def stops (e : Ev) (o : Out) : Bool :=
   o.terminal || (match e, o with | .S _ _, .ga 3 => true | .S _ _, .sfail => true | _, _ => false)
+
+/-! ### scheduleFrameWrite: taking frames from the stream queues -/
+def maxFrame : Int := 16384
+
+def noCostHead (s : SS) : Bool :=
+  match s.q with
+  | .data _ _ :: _ => false
+  | _ :: _ => true
+  | [] => false
+
+def dataReady (c : Conn) (s : SS) : Bool :=
+  match s.q with
+  | .data _ _ :: _ => decide (min s.flow c.cflow > 0)
+  | _ => false
+
+/-- startFrameWrite of frame `f` on stream `id`, whose record (head already taken off the queue) is `s` -/
+def startOn (c : Conn) (id : Nat) (s : SS) (f : QF) : Conn × Out :=
+  let x := c.upd id (sstep s (.start f))
+  if x.2 == .held then ({ x.1 with held := some id }, x.2) else x
+
+/-- `writeScheduler.take` + `startFrameWrite`: frames that cost nothing first, then DATA as far as the stream and
+    connection windows and the 16384-byte frame size allow (a partial chunk never ends the stream) -/
+def drainStep (c : Conn) : Option (Conn × Out) :=
+  match c.ids.find? (fun id => noCostHead (c.streams id)) with
+  | some id =>
+    (match (c.streams id).q with
+     | f :: rest => some (startOn c id { c.streams id with q := rest } f)
+     | [] => none)
+  | none =>
+    match c.ids.find? (fun id => dataReady c (c.streams id)) with
+    | some id =>
+      (match (c.streams id).q with
+       | .data len es :: rest =>
+         let s := c.streams id
+         let allowed := min (min s.flow c.cflow) maxFrame
+         if (len : Int) > allowed then
+           some (startOn { c with cflow := c.cflow - allowed } id
+             { s with flow := s.flow - allowed, q := .data (len - allowed.toNat) es :: rest } (.data allowed.toNat false))
+         else
+           some (startOn { c with cflow := c.cflow - len } id { s with flow := s.flow - len, q := rest } (.data len es))
+       | _ => none)
+    | none => none
+
+/-- the scheduler runs until a frame is in flight, nothing can be taken, or an error GOAWAY has stopped it -/
+def drain : Nat → Conn → Conn × Option PanicSite
+  | 0, c => (c, none)
+  | fuel + 1, c =>
+    if c.held.isSome || schedStopped c then (c, none)
+    else match drainStep c with
+      | none => (c, none)
+      | some (c', .panic site) => (c', some site)
+      | some (c', _) => drain fuel c'
+
+/-- what became of the handler's last frame(s) -/
+def handlerOutcome (c : Conn) (id : Nat) : Out :=
+  if c.held == some id then .held
+  else if !(c.streams id).q.isEmpty then (if schedStopped c then .queued else .blocked)
+  else .skip
+
+/-- one serve-loop iteration: the event itself, then the write scheduler -/
+def cstep (c : Conn) (e : Ev) : Conn × Out :=
+  if e.isClient && c.gone then (c, .gone)
+  else
+    let r := cstepCore c e
+    if stops e r.2 then r
+    else
+      let d := drain 1000 r.1
+      match d.2 with
+      | some site => (d.1, .panic site)
+      | none =>
+        match e, r.2 with
+        | .F id, .ok => (d.1, handlerOutcome d.1 id)
+        | .P id, .ok => (d.1, handlerOutcome d.1 id)
+        | .B id _, .ok => (d.1, handlerOutcome d.1 id)
+        | _, _ => (d.1, r.2)
 
 def runEvs : Conn → List Ev → List Out → Conn × List Out
   | c, [], acc => (c, acc.reverse)
